@@ -344,7 +344,18 @@ class Tr:
                     # method call for its side effect on the receiver
                     recv = v.func.value
                     return self.assign_to(recv, self.E(v, ren), ren)
-                return []
+                # a call statement on a bare function (or on a module-level name) is executed for its side effects: every argument that is a
+                # variable may be written by it, with a value that depends on ALL the arguments (a helper that stashes private data into a
+                # list it was handed must taint that list)
+                outs = []
+                call_e = self.E(v, ren)
+                for a in list(v.args) + [k.value for k in v.keywords]:
+                    base = a
+                    while isinstance(base, (ast.Attribute, ast.Subscript)):
+                        base = base.value
+                    if isinstance(base, ast.Name) and not isinstance(a, ast.Constant):
+                        outs += self.assign_to(base, call_e, ren)
+                return outs
             raise Unsupported('expression statement')
         if isinstance(s, ast.Assign):
             out = []
